@@ -16,8 +16,8 @@
 EXTENDS Integers, Sequences, FiniteSets, TLC
 
 Pow2(n) == 2 ^ n
-Min(a, b) == IF a < b THEN a ELSE b
-Take(s, n) == SubSeq(s, 1, Min(n, Len(s)))
+MinOf(a, b) == IF a < b THEN a ELSE b
+Take(s, n) == SubSeq(s, 1, MinOf(n, Len(s)))
 Drop(s, n) == SubSeq(s, n + 1, Len(s))
 Zeros(n) == [i \in 1..n |-> 0]
 
@@ -70,9 +70,9 @@ PlainFixedOK(bs, w, n) == Len(bs) = w * n
 RECURSIVE PlainByteArrays(_, _, _)
 PlainByteArrays(bs, i, acc) ==
   IF i > Len(bs) THEN acc
-  ELSE IF i + 3 > Len(bs) \/ bs[i + 3] >= 64 THEN Append(acc, <<"malformed">>)
+  ELSE IF i + 3 > Len(bs) \/ bs[i + 3] >= 64 THEN Append(acc, <<-1>>)
   ELSE LET n == LEInt(SubSeq(bs, i, i + 3)) IN
-       IF i + 3 + n > Len(bs) THEN Append(acc, <<"malformed">>)
+       IF i + 3 + n > Len(bs) THEN Append(acc, <<-1>>)
        ELSE PlainByteArrays(bs, i + 4 + n, Append(acc, SubSeq(bs, i + 4, i + 3 + n)))
 \* booleans: one bit each, LSB first
 PlainBooleans(bs, n) == [k \in 1..n |-> BitAt(bs, k - 1)]
@@ -86,20 +86,20 @@ PlainBooleans(bs, n) == [k \in 1..n |-> BitAt(bs, k - 1)]
 RECURSIVE HybridRuns(_, _, _, _, _)
 HybridRuns(bs, i, w, limit, acc) ==
   IF i > Len(bs) \/ Len(acc) >= limit THEN acc
-  ELSE IF ~VarSmall(bs, i) THEN Append(acc, <<"malformed">>)
+  ELSE IF ~VarSmall(bs, i) THEN Append(acc, <<-1>>)
   ELSE LET h == TLCEval(UVar(bs, i))
            j == TLCEval(VarEnd(bs, i) + 1)
            cnt == h \div 2
        IN IF h % 2 = 1
           THEN \* bit-packed: cnt groups of 8 values, w bytes per group; a truncated last group is zero-padded
                LET avail == 8 * (Len(bs) - j + 1)
-                   nvals == IF w = 0 THEN 8 * cnt ELSE Min(8 * cnt, (avail + w - 1) \div w)
+                   nvals == IF w = 0 THEN 8 * cnt ELSE MinOf(8 * cnt, (avail + w - 1) \div w)
                    run == [k \in 1..nvals |-> BitsAt(bs, 8 * (j - 1) + (k - 1) * w, w)]
                IN HybridRuns(bs, j + cnt * w, w, limit, acc \o run)
           ELSE LET nb == (w + 7) \div 8
                    v == BitsAt(bs, 8 * (j - 1), w)
-               IN IF j + nb - 1 > Len(bs) THEN Append(acc, <<"malformed">>)
-                  ELSE HybridRuns(bs, j + nb, w, limit, acc \o [k \in 1..Min(cnt, limit) |-> v])
+               IN IF j + nb - 1 > Len(bs) THEN Append(acc, <<-1>>)
+                  ELSE HybridRuns(bs, j + nb, w, limit, acc \o [k \in 1..MinOf(cnt, limit) |-> v])
 Hybrid(bs, w, limit) == HybridRuns(bs, 1, w, limit, <<>>)
 HybridInts(bs, w, limit) == LET r == Hybrid(bs, w, limit) IN [k \in 1..Len(r) |-> BitsToInt(r[k])]
 HybridBytes(bs, w, limit, n) == LET r == Hybrid(bs, w, limit) IN [k \in 1..Len(r) |-> BitsToBytes(r[k], n)]
@@ -127,26 +127,26 @@ DeltaMini(bs, p, w, left, minD, n, prev, acc) ==
 DeltaMinis(bs, m, mbs, wj, j, per, total, minD_n, acc) ==
   IF m > mbs \/ Len(acc) >= total THEN <<acc, j>>        \* unused trailing miniblocks carry no data
   ELSE LET w == bs[wj + m - 1]
-           acc2 == TLCEval(DeltaMini(bs, 8 * (j - 1), w, Min(per, total - Len(acc)), minD_n[1], minD_n[2], acc[Len(acc)], acc))
+           acc2 == TLCEval(DeltaMini(bs, 8 * (j - 1), w, MinOf(per, total - Len(acc)), minD_n[1], minD_n[2], acc[Len(acc)], acc))
        IN DeltaMinis(bs, m + 1, mbs, wj, j + (per * w) \div 8, per, total, minD_n, acc2)
 DeltaBlocks(bs, i, bsize, mbs, total, n, acc) ==
   IF Len(acc) >= total THEN [vals |-> acc, next |-> i]
-  ELSE IF ~VarOK(bs, i) THEN [vals |-> Append(acc, <<"malformed">>), next |-> Len(bs) + 1]
+  ELSE IF ~VarOK(bs, i) THEN [vals |-> Append(acc, <<-1>>), next |-> Len(bs) + 1]
   ELSE LET minD == TLCEval(ZigZagLE(bs, i, n))
            wj == TLCEval(VarEnd(bs, i) + 1)                      \* the bit widths, one byte per miniblock
-       IN IF wj + mbs - 1 > Len(bs) THEN [vals |-> Append(acc, <<"malformed">>), next |-> Len(bs) + 1]
+       IN IF wj + mbs - 1 > Len(bs) THEN [vals |-> Append(acc, <<-1>>), next |-> Len(bs) + 1]
           ELSE LET r == TLCEval(DeltaMinis(bs, 1, mbs, wj, wj + mbs, bsize \div mbs, total, <<minD, n>>, acc))
                IN DeltaBlocks(bs, r[2], bsize, mbs, total, n, r[1])
 DeltaBinaryPackedAt(bs, i, n) ==
   IF i > Len(bs) THEN [vals |-> <<>>, next |-> i]
-  ELSE IF ~(VarSmall(bs, i)) THEN [vals |-> <<<<"malformed">>>>, next |-> Len(bs) + 1]
+  ELSE IF ~(VarSmall(bs, i)) THEN [vals |-> <<<<-1>>>>, next |-> Len(bs) + 1]
   ELSE
   LET bsize == TLCEval(UVar(bs, i))        i2 == TLCEval(VarEnd(bs, i) + 1)
       mbs == TLCEval(UVar(bs, i2))         i3 == TLCEval(VarEnd(bs, i2) + 1)
       total == TLCEval(UVar(bs, i3))       i4 == TLCEval(VarEnd(bs, i3) + 1)
       first == TLCEval(ZigZagLE(bs, i4, n))  i5 == TLCEval(VarEnd(bs, i4) + 1)
   IN IF total = 0 THEN [vals |-> <<>>, next |-> i5]
-     ELSE IF mbs = 0 \/ bsize % 128 # 0 \/ (bsize \div mbs) % 32 # 0 THEN [vals |-> <<<<"malformed">>>>, next |-> Len(bs) + 1]
+     ELSE IF mbs = 0 \/ bsize % 128 # 0 \/ (bsize \div mbs) % 32 # 0 THEN [vals |-> <<<<-1>>>>, next |-> Len(bs) + 1]
      ELSE DeltaBlocks(bs, i5, bsize, mbs, total, n, <<first>>)
 DeltaBinaryPacked(bs, n) == DeltaBinaryPackedAt(bs, 1, n).vals
 
@@ -154,7 +154,7 @@ DeltaBinaryPacked(bs, n) == DeltaBinaryPackedAt(bs, 1, n).vals
 RECURSIVE Slices(_, _, _, _, _)
 Slices(bs, lens, k, at, acc) ==
   IF k > Len(lens) THEN [vals |-> acc, next |-> at, ok |-> TRUE]
-  ELSE IF lens[k][4] >= 64 \/ at + LEInt(lens[k]) - 1 > Len(bs) THEN [vals |-> Append(acc, <<"malformed">>), next |-> Len(bs) + 1, ok |-> FALSE]
+  ELSE IF lens[k][4] >= 64 \/ at + LEInt(lens[k]) - 1 > Len(bs) THEN [vals |-> Append(acc, <<-1>>), next |-> Len(bs) + 1, ok |-> FALSE]
   ELSE Slices(bs, lens, k + 1, at + LEInt(lens[k]), Append(acc, SubSeq(bs, at, at + LEInt(lens[k]) - 1)))
 DeltaLengthAt(bs, i) == LET d == TLCEval(DeltaBinaryPackedAt(bs, i, 4)) IN Slices(bs, d.vals, 1, d.next, <<>>)
 DeltaLengthByteArray(bs) == DeltaLengthAt(bs, 1).vals
@@ -168,7 +168,7 @@ DeltaByteArray(bs) ==
   IF Len(bs) = 0 THEN <<>> ELSE
   LET p == TLCEval(DeltaBinaryPackedAt(bs, 1, 4))
       suf == TLCEval(DeltaLengthAt(bs, p.next).vals)
-  IN IF Len(suf) # Len(p.vals) THEN <<<<"malformed">>>> ELSE Unprefix(p.vals, suf, 1, <<>>, <<>>)
+  IN IF Len(suf) # Len(p.vals) THEN <<<<-1>>>> ELSE Unprefix(p.vals, suf, 1, <<>>, <<>>)
 
 ------------------------------------------------------------------------------
 (* BYTE_STREAM_SPLIT: byte j of value k is at  (j-1) * n + k  *)
